@@ -233,6 +233,26 @@ let nav_step g (regs : pos option list) rs (op : string) : string * pos option *
   | Some o ->
     let ((res, nr), rs') = nav_exec g !len_counts_nodes !tokens_skip_empty regs rs o in
     (match res with
+     | RList picked when (match o with NIterScript _ -> true | _ -> false) && Array.length (Array.of_list (String.split_on_char ':' op)) > 3 ->
+       (* the iterator after the script: what further calls of next yield (the model's own iterator, drained) *)
+       let parts = Array.of_list (String.split_on_char ':' op) in
+       let (rest, rs2) = (match o with
+           | NIterScript (b, r, script) ->
+             let nkids = (match List.nth_opt regs (int_of_nat r) with Some (Some p) -> List.length (kids g p) | _ -> 0) in
+             let zeros = List.init (nkids + 1) (fun _ -> O) in
+             (match nav_exec g !len_counts_nodes !tokens_skip_empty regs rs (NIterScript (b, r, script @ zeros)) with
+              | ((RList all, _), rs2) -> let rec drop n l = if n = 0 then l else (match l with [] -> [] | _ :: t -> drop (n - 1) t) in (drop (List.length picked) all, rs2)
+              | _ -> ([], rs'))
+           | _ -> ([], rs')) in
+       let sp = show_pos g rs2 in
+       let n = List.length rest in
+       let tail = (match parts.(3) with
+           | "l" -> " last=" ^ (match List.rev rest with [] -> "-" | x :: _ -> sp x)
+           | "c" -> " count=" ^ string_of_int n
+           | "z" -> Printf.sprintf " len=%d,hint=%d-%d" n n n
+           | "f" -> " rest=[" ^ String.concat "," (List.map sp rest) ^ "]"
+           | _ -> "") in
+       (show_nres g rs' res ^ tail, nr, rs')
      | RTao (Ok x) when helper ->
        (* the TokenAtOffset helper (TaoHelper.v): left / right bias, the iterator drained by 4 calls of next,
           and the exact size reported before each call *)
@@ -268,7 +288,15 @@ let run_n args =
       if List.length all > 60 then "" else
         " texts " ^ String.concat "|" (List.filter_map (fun p ->
             if is_node_at g p then (match subr g p with Some e -> Some (show_text (gtext static_text !n_strs e)) | None -> None) else None) all) in
-    String.concat " ; " (List.rev !outs) ^ " ;; " ^ String.concat " " held ^ " ;; "
+    (* identity: registers holding the same position are equal handles *)
+    let reps = ref [] in
+    let classes = List.map (function
+        | None -> "-"
+        | Some p ->
+          (match List.find_opt (fun (_, q) -> q = p) !reps with
+           | Some (k, _) -> string_of_int k
+           | None -> let k = List.length !reps in reps := !reps @ [(k, p)]; string_of_int k)) !regs in
+    String.concat " ; " (List.rev !outs) ^ " ;; " ^ String.concat " " held ^ " ~ " ^ String.concat "," classes ^ " ;; "
     ^ String.concat "," (List.map (show_pos g rsf) all) ^ texts
 
 (* ------------------------------------------------------------------------------------------ *)
